@@ -42,7 +42,8 @@ PROPS = {
         kani=[],
     ),
     'C17': dict(
-        units=[('ser', r'(raw_size|frame_counts|gecko_codes_size|payload_sizes|PayloadSizes|lemma_|emit_len|C17|Frame::write|::write$|Frame::len|C01\.payload_table|C01\.file_layout|C01\.frames_canonical_order|C01\.gecko_blocks)')],
+        units=[('reader', r'(C04\.last_frame_closed_at_end_of_stream)'), ('event', r'(frame_close|C04\.closed_frame_is_level|C04\.every_column_one_entry_per_row)'),
+               ('ser', r'(raw_size|frame_counts|gecko_codes_size|payload_sizes|PayloadSizes|lemma_|emit_len|C17|Frame::write|::write$|Frame::len|C01\.payload_table|C01\.file_layout|C01\.frames_canonical_order|C01\.gecko_blocks)')],
         kani=[],
     ),
     'C04': dict(
